@@ -160,6 +160,9 @@ def main(tier):
     sb = 60 if tier == 'quick' else 600
     steps = [('ne_step_rel', 'order', 'vee', VEE, 'simple_n', sb), ('ne_step_rel', 'order', 'vee', VEE, 'simple', sb), ('ne_step_rel', 'order', 'vee', VEE, 'dist', sb),
              ('ne_step_rel', 'order', 'tri', NAMED['tri'], 'simple_n', sb), ('ne_step_rel', 'order', 'fork', NAMED['fork'], 'simple', sb)]
+    # two routes that reconverge inside the non-emitting search and continue: what the merged entry carries on must not depend on which route came first
+    D6 = dict(only0=[('A', 'B'), ('A', 'C')], only1=[('E', 'F')])
+    steps += [('ne_step_rel', 'order', 'diamond6', NAMED['diamond6'], 'dist', sb, D6), ('ne_step_rel', 'order', 'diamond6', NAMED['diamond6'], 'simple', sb, D6)]
     kres = run_instances(run_instance, steps + [('prune_order', n, W, t) for n in ((3,) if tier == 'quick' else (3, 4)) for W in range(1, n) for t in (False, True)])
     res = list(kres) + gabs.run_all(rep, run_instance, instances(tier), budget, 16 * (100 if tier == 'quick' else 900))
     rep.bounds = dict(graphs="oneway3, oneway4, line2, fork, tri, star" if tier == 'quick' else "all digraphs <=3 nodes, fork, oneway4, star",
